@@ -335,11 +335,13 @@ def finish(ctx):
         "coverage": cov, "assumptions": list(getattr(p, "ASSUMPTIONS", [])), "wall_s": round(wall, 2),
         "violations": len(reported),
     }
-    os.makedirs(os.path.join(VERIF, "evidence"), exist_ok=True)
-    tmp = os.path.join(VERIF, "evidence", ".%s.json.tmp" % ctx.pid)
+    # evidence is about /repo itself; a development run against a scratch tree (BFL_REPO) writes elsewhere
+    evdir = os.path.join(VERIF, "evidence") if os.path.realpath(build.REPO) == "/repo" else os.path.join(VERIF, "build", "evidence-scratch")
+    os.makedirs(evdir, exist_ok=True)
+    tmp = os.path.join(evdir, ".%s.json.tmp%d" % (ctx.pid, os.getpid()))
     with open(tmp, "w") as f:
         json.dump(ev, f, indent=1, default=str)
-    os.replace(tmp, os.path.join(VERIF, "evidence", "%s.json" % ctx.pid))
+    os.replace(tmp, os.path.join(evdir, "%s.json" % ctx.pid))
     for l in lines:
         print(l, flush=True)
     print("%s %s: obligations %d/%d, %d cases, %d distinct non-trivial, %d correspondence differences, %d new violation(s), %d known finding(s), %.1fs"
